@@ -8,6 +8,8 @@
                                       | {"kind": "attrs", "type": str | null, "coordinates": raw | null}}
                    doc = {"type": str | null, "coordinates": raw | null} | "other"
   holds            {"cls": name, "coordinates": raw, "out": {"val": {"cls", "coordinates"}} | {"raise": e}}
+  union_validate   {"src": {"kind": "mapping"|"object"|"unusable", "type": str | null, "coordinates": raw | null}}
+  instance_validate{"mode": str, "cls": name, "type": str, "coordinates": raw} -> {"asis": reply, "demand": reply}
   replies          {"val": {"type": t, "cls": class name, "coordinates": raw}} | {"raise": "invalid"}
 -/
 import SoundeventModel.Ops.Common
@@ -99,6 +101,27 @@ def handle (op : String) (a : Json) : Except String Json := do
     match ← getOut (← fld a "out") with
     | some out => return boolJ (holdsB c.ty r out)
     | none => return boolJ false
+  | "union_validate" =>
+    -- {"src": {"kind": "mapping" | "object" | "unusable", "type": str | null, "coordinates": raw | null}}
+    let src ← fld a "src"
+    let source : Source ← match ← fldStr src "kind" with
+      | "mapping" => pure (Source.mapping (← optStr src "type") (← optRaw src "coordinates"))
+      | "object" => pure (Source.object (← optStr src "type") (← optRaw src "coordinates"))
+      | _ => pure Source.unusable
+    return resJ (unionValidate allClasses source)
+  | "instance_validate" =>
+    -- an existing instance of class `cls` whose fields are now `type`, `coordinates` (of the shape
+    -- of the class): `asis` = the code as it is (pass-through), `demand` = read as attribute object
+    let c ← getCls (← fldStr a "cls")
+    let t ← fldStr a "type"
+    let r ← getRaw (← fld a "coordinates")
+    let mode := getMode (← fldStr a "mode")
+    match decode c.ty r with
+    | none => .error "instance_validate: coordinates do not have the shape of the class"
+    | some g =>
+      return Json.mkObj [
+        ("asis", resJ (geometryValidateInstance table mode (c, (t, g)))),
+        ("demand", resJ (geometryValidate table mode (.attrs (some t) (some r))))]
   | "spec" =>
     let c ← getCls (← fldStr a "cls")
     return boolJ (specB c.ty (← getRaw (← fld a "coordinates")))
